@@ -22,9 +22,10 @@ VARIABLES
     rules,     \* set of active (valid) flow rule records [id, res, thr, I]
     sinceIdx,  \* rule id -> number of admissions on its resource that its private window does NOT see
     adm,       \* resource -> sequence of [t, n]
-    given      \* rules as last handed in (invalid ones included)
+    given,     \* rules as last handed in (invalid ones included)
+    mem        \* the collected memory usage (bytes) that memory-adaptive rules look at
 
-fvars == <<on, cfg, now, rules, sinceIdx, adm, given>>
+fvars == <<on, cfg, now, rules, sinceIdx, adm, given, mem>>
 
 Lg == cfg.It \div cfg.nt
 Start(len, t) == t - (t % len)
@@ -51,12 +52,24 @@ WinSum(r, t) ==
         S == {i \in first..Len(a) : a[i].t >= WinLo(r, t)}
     IN  FoldSet(LAMBDA i, acc : acc + a[i].n, 0, S)
 
-Fits(r, n, t) == (WinSum(r, t) + n) * r.thr[2] <= r.thr[1]
+\* The threshold in force.  A memory-adaptive rule (calc = "mem") has no fixed threshold: it allows
+\* lmu tokens while memory usage is below the low-water mark, hmu above the high-water mark, and the
+\* linear interpolation in between (a rational here).
+IsMem(r) == "calc" \in DOMAIN r /\ r.calc = "mem"
+Thr(r) == IF ~IsMem(r) THEN r.thr
+          ELSE IF mem > r.mhw THEN <<r.hmu, 1>>
+          ELSE IF mem < r.mlw THEN <<r.lmu, 1>>
+          ELSE <<(r.hmu - r.lmu) * (mem - r.mlw) + r.lmu * (r.mhw - r.mlw), r.mhw - r.mlw>>
+
+Fits(r, n, t) == (WinSum(r, t) + n) * Thr(r)[2] <= Thr(r)[1]
 
 RulesOf(res) == {r \in rules : r.res = res}
 
-Valid(r) == r.res # "" /\ r.thr[1] >= 0
-SameRule(a, b) == a.res = b.res /\ a.thr[1] * b.thr[2] = b.thr[1] * a.thr[2] /\ a.I = b.I
+Valid(r) == /\ r.res # "" /\ r.thr[1] >= 0
+            /\ IsMem(r) => (r.mlw # 0 /\ r.mhw # 0 /\ r.hmu # 0 /\ r.lmu # 0 /\ r.hmu < r.lmu /\ r.mlw < r.mhw)
+MemKey(r) == IF IsMem(r) THEN <<r.lmu, r.hmu, r.mlw, r.mhw>> ELSE <<>>
+SameRule(a, b) == /\ a.res = b.res /\ a.thr[1] * b.thr[2] = b.thr[1] * a.thr[2] /\ a.I = b.I
+                  /\ MemKey(a) = MemKey(b)
 StatReusable(a, b) == a.res = b.res /\ a.I = b.I
 
 SeqToSet(s) == {s[i] : i \in 1..Len(s)}
@@ -67,7 +80,7 @@ Reset(ev) ==
     /\ on' = TRUE
     /\ cfg' = ev.cfg
     /\ now' = ev.t
-    /\ rules' = {} /\ sinceIdx' = <<>> /\ adm' = <<>> /\ given' = {}
+    /\ rules' = {} /\ sinceIdx' = <<>> /\ adm' = <<>> /\ given' = {} /\ mem' = 0
 
 \* The private window a (re)loaded rule ends up with: that of an equal old rule; else that of an
 \* old rule with the same interval (the code hands the statistics over) or a fresh one.
@@ -84,8 +97,11 @@ SameSets(A, B) == (\A a \in A : \E b \in B : SameRule(a, b)) /\ (\A b \in B : \E
 ChoiceFns(new, keep) ==
     LET ids == {r.id : r \in new \cup keep}
         same(r) == SameSets({o \in rules : o.res = r.res}, {x \in new \cup keep : x.res = r.res})
-        rng == UNION {SinceChoices(r, same(r)) : r \in new} \cup {sinceIdx[r.id] : r \in keep}
-    IN  {f \in [ids -> rng] : /\ \A r \in new : f[r.id] \in SinceChoices(r, same(r))
+        \* only a private window has a beginning; for a rule served by the shared array the entry is unused
+        \* and kept at 0, so that trace validation does not branch on it
+        choices(r) == IF IsShared(r) THEN {0} ELSE SinceChoices(r, same(r))
+        rng == UNION {choices(r) : r \in new} \cup {sinceIdx[r.id] : r \in keep}
+    IN  {f \in [ids -> rng] : /\ \A r \in new : f[r.id] \in choices(r)
                               /\ \A r \in keep : f[r.id] = sinceIdx[r.id]}
 
 LoadAll(ev) ==
@@ -95,7 +111,7 @@ LoadAll(ev) ==
        /\ rules' = new
        /\ sinceIdx' \in ChoiceFns(new, {})
     /\ given' = SeqToSet(ev.rules)
-    /\ UNCHANGED <<on, cfg, adm>>
+    /\ UNCHANGED <<on, cfg, adm, mem>>
 
 LoadRes(ev) ==
     /\ ev.e = "load" /\ ev.fam = "flow" /\ ev.op = "res"
@@ -106,7 +122,7 @@ LoadRes(ev) ==
        /\ rules' = keep \cup new
        /\ sinceIdx' \in ChoiceFns(new, keep)
     /\ given' = {g \in given : g.res # ev.res} \cup SeqToSet(ev.rules)
-    /\ UNCHANGED <<on, cfg, adm>>
+    /\ UNCHANGED <<on, cfg, adm, mem>>
 
 \* the decision of one request
 Decision(res, n, t) ==
@@ -120,24 +136,32 @@ Enter(ev) ==
        adm' = IF d.pass /\ ev.n > 0      \* a zero-token admission leaves no trace
               THEN (ev.res :> Append(Adm(ev.res), [t |-> ev.t, n |-> ev.n])) @@ adm
               ELSE adm
-    /\ UNCHANGED <<on, cfg, rules, sinceIdx, given>>
+    /\ UNCHANGED <<on, cfg, rules, sinceIdx, given, mem>>
 
 \* exits and pure clock steps do not influence flow decisions
 Other(ev) ==
     /\ ev.e \in {"exit", "adv"}
     /\ on /\ ev.t >= now /\ now' = ev.t
+    /\ UNCHANGED <<on, cfg, rules, sinceIdx, adm, given, mem>>
+
+\* the memory collector reports another reading
+SysMem(ev) ==
+    /\ ev.e = "sysmem"
+    /\ on /\ ev.t >= now /\ now' = ev.t
+    /\ mem' = ev.v
     /\ UNCHANGED <<on, cfg, rules, sinceIdx, adm, given>>
 
-Step(ev) == Reset(ev) \/ LoadAll(ev) \/ LoadRes(ev) \/ Enter(ev) \/ Other(ev)
+Step(ev) == Reset(ev) \/ LoadAll(ev) \/ LoadRes(ev) \/ Enter(ev) \/ Other(ev) \/ SysMem(ev)
 
 FlowInit ==
     /\ on = FALSE /\ cfg = [nt |-> 20, It |-> 10000, n |-> 2, I |-> 1000] /\ now = 0
-    /\ rules = {} /\ sinceIdx = <<>> /\ adm = <<>> /\ given = {}
+    /\ rules = {} /\ sinceIdx = <<>> /\ adm = <<>> /\ given = {} /\ mem = 0
 
 (* ---------------------------------------------------------------------- *)
 (* The consequence stated in the property: tokens admitted in a rule's    *)
 (* current window never exceed its threshold (for a rule that has been    *)
 (* active for the whole window - checked in the model where rules are     *)
 (* loaded once).                                                           *)
-NoOverAdmission == \A r \in rules : WinSum(r, now) * r.thr[2] <= r.thr[1]
+\* (fixed thresholds; a memory-adaptive threshold moves with the memory reading)
+NoOverAdmission == \A r \in rules : ~IsMem(r) => WinSum(r, now) * r.thr[2] <= r.thr[1]
 =============================================================================
